@@ -167,16 +167,25 @@ Record access := mkAcc { a_field : string; a_kind : rw; a_locks : list string; a
 Record callsite := mkCall { c_callee : string; c_locks : list string; c_inloop : bool; c_line : Z }.
 Record xcallsite := mkXCall { x_field : string; x_class : string; x_callee : string;
                               x_locks : list string; x_inloop : bool; x_line : Z }.
+(* what a destructor does beyond its body: at its closing brace it destroys the synchronisation members of the object
+   (d_destroys: member, line); before that it may join the object's thread: d_join = None - no join() on any path;
+   Some gs - join() on the paths selected by conditions that read the members gs ([] = unconditionally) *)
+Record dtorinfo := mkDtor { d_destroys : list (string * Z); d_join : option (list string) }.
 Record msummary := mkSummary {
   m_class : string; m_name : string; m_public : bool; m_kind : mkind;
   m_check_first : bool;                  (* first statement (debug asserts aside) is assertInLoopThread() *)
   m_accesses : list access; m_calls : list callsite; m_xcalls : list xcallsite;
   m_posts : list (string * string);      (* bound into runInLoop/queueInLoop/runAfter/runAt/runEvery *)
-  m_registers : list (string * string)   (* bound as a callback elsewhere *) }.
+  m_registers : list (string * string);  (* bound as a callback elsewhere *)
+  m_tails : list (string * list string); (* (g, ms): after its last write of member g the body still uses the members ms
+                                            (later accesses, locks held at that write and released afterwards) *)
+  m_dtor : option dtorinfo }.
 Record fielddecl := mkFieldDecl { fd_class : string; fd_name : string; fd_atomic : bool; fd_sync : bool; fd_tls : bool }.
 Record ptable := mkTable { t_fields : list (string * string * pclass);
                            t_methods : list (string * string * contract);
-                           t_decls : list fielddecl }.
+                           t_decls : list fielddecl;
+                           t_exitflags : list (string * string) (* storing the member lets the owner thread end its loop and
+                                                                    destroy the object (EventLoop::quit_) *) }.
 Record violation := mkViol { v_class : string; v_site : string; v_what : string; v_kind : string }.
 
 Definition seqb := String.eqb.
@@ -390,6 +399,54 @@ Definition coverage_violations (T : ptable) (S : list msummary) : list violation
       else match m_accesses m with [] => [] | _ => [mkViol (m_class m) (m_name m) "" "unreached"] end
     end) S.
 
+(* teardown: destroying a synchronisation member that the object's own thread may still be using.  The destructor may
+   only skip join() on the strength of a member g the thread itself never writes (ThreadPool::running_, written by
+   start/stop only); if the thread entry function writes g (EventLoopThread::loop_ = NULL at its end), then seeing that
+   value proves nothing about what the thread does after the write - in particular it still has to release the locks
+   it holds at that point - and whatever it uses there must not be destroyed.  No join at all: everything the thread
+   uses is affected. *)
+Definition thread_roots (T : ptable) (S : list msummary) (cls : string) : list msummary :=
+  filter (fun m => seqb (m_class m) cls &&
+                   match contract_of T cls (m_name m) with Some CThread => true | _ => false end) S.
+
+Fixpoint assoc_tail (g : string) (l : list (string * list string)) : list string :=
+  match l with
+  | [] => []
+  | (g', ms) :: r => if seqb g g' then ms else assoc_tail g r
+  end.
+
+Definition thread_uses (t : msummary) : list string :=
+  map a_field (m_accesses t) ++ flat_map a_locks (m_accesses t).
+
+Definition unjoined_uses (thr : list msummary) (j : option (list string)) : list string :=
+  match j with
+  | None => flat_map thread_uses thr
+  | Some gs => flat_map (fun g => flat_map (fun t => assoc_tail g (m_tails t)) thr) gs
+  end.
+
+Definition teardown_violations (T : ptable) (S : list msummary) : list violation :=
+  flat_map (fun m =>
+    match m_dtor m with
+    | None => []
+    | Some d =>
+      let bad := unjoined_uses (thread_roots T S (m_class m)) (d_join d) in
+      flat_map (fun fl => if mem (fst fl) bad then [mkViol (m_class m) (m_name m) (fst fl) "destroy"] else [])
+               (d_destroys d)
+    end) S.
+
+(* use after release: an any-thread method that stores an exit flag has told the owner thread that it may leave its loop
+   and destroy the object; whatever the method still touches afterwards off the loop thread (m_tails: later accesses and
+   those of the methods it calls on `this`) may hit a destroyed object.  EventLoop::quit(): quit_ = true; wakeup(). *)
+Definition useafter_violations (T : ptable) (S : list msummary) : list violation :=
+  flat_map (fun mk => let '(m, k) := mk in
+    match k with
+    | CAny =>
+      flat_map (fun cf => if seqb (fst cf) (m_class m)
+                          then map (fun f => mkViol (m_class m) (m_name m) f "useafter") (assoc_tail (snd cf) (m_tails m))
+                          else []) (t_exitflags T)
+    | _ => []
+    end) (roots T S).
+
 Definition viol_eqb (a b : violation) : bool :=
   seqb (v_class a) (v_class b) && seqb (v_site a) (v_site b) && seqb (v_what a) (v_what b) && seqb (v_kind a) (v_kind b).
 
@@ -400,7 +457,8 @@ Fixpoint dedup (l : list violation) : list violation :=
   end.
 
 Definition violations_raw (T : ptable) (S : list msummary) : list violation :=
-  access_violations T S ++ call_violations T S ++ failfast_violations T S ++ coverage_violations T S.
+  access_violations T S ++ call_violations T S ++ failfast_violations T S ++ coverage_violations T S
+  ++ useafter_violations T S ++ teardown_violations T S.
 Definition violations (T : ptable) (S : list msummary) : list violation := dedup (violations_raw T S).
 
 (* the obligation closed by vm_compute in Properties_C08.v: every violation of the regenerated summaries is a
@@ -408,6 +466,50 @@ Definition violations (T : ptable) (S : list msummary) : list violation := dedup
    dropping an assertInLoopThread, calling an ...InLoop method directly: each adds an unwaived violation. *)
 Definition discipline_ok (S : list msummary) (T : ptable) (waivers : list violation) : bool :=
   forallb (fun v => existsb (viol_eqb v) waivers) (violations_raw T S).
+
+(* ---- the operations the property text names (so that the generated-fact obligations demonstrably cover them) *)
+Definition named_anythread_ops : list (string * string) :=
+  [ ("EventLoop", "runInLoop"); ("EventLoop", "queueInLoop"); ("EventLoop", "runAt"); ("EventLoop", "runAfter");
+    ("EventLoop", "runEvery"); ("EventLoop", "cancel"); ("EventLoop", "quit"); ("EventLoop", "queueSize");
+    ("TimerQueue", "addTimer"); ("TimerQueue", "cancel");
+    ("TcpConnection", "send"); ("TcpConnection", "shutdown"); ("TcpConnection", "forceClose");
+    ("TcpConnection", "forceCloseWithDelay"); ("TcpConnection", "startRead"); ("TcpConnection", "stopRead");
+    ("TcpClient", "connect"); ("TcpClient", "disconnect"); ("TcpClient", "stop"); ("TcpClient", "connection");
+    ("Connector", "start"); ("Connector", "stop");
+    ("ThreadPool", "run");
+    ("BlockingQueue", "put"); ("BlockingQueue", "take"); ("BlockingQueue", "drain"); ("BlockingQueue", "size");
+    ("BoundedBlockingQueue", "put"); ("BoundedBlockingQueue", "take"); ("BoundedBlockingQueue", "empty");
+    ("BoundedBlockingQueue", "full"); ("BoundedBlockingQueue", "size"); ("BoundedBlockingQueue", "capacity");
+    ("CountDownLatch", "wait"); ("CountDownLatch", "countDown"); ("CountDownLatch", "getCount");
+    ("AsyncLogging", "append");
+    (* the LOG_* macros: Logger(file, line[, level[, func]]).stream() << ...; ~Logger() *)
+    ("Logging", "Logger_Logger"); ("Logging", "Logger_Impl"); ("Logging", "Logger_formatTime");
+    ("Logging", "Logger_finish"); ("Logging", "Logger_dtor_Logger"); ("Logging", "defaultOutput");
+    ("Logging", "defaultFlush"); ("Logging", "strerror_tl") ].
+
+(* loop(), channel registration and removal, pool start and loop selection, connection establishment and destruction *)
+Definition named_confined_ops : list (string * string) :=
+  [ ("EventLoop", "loop"); ("EventLoop", "updateChannel"); ("EventLoop", "removeChannel");
+    ("EventLoopThreadPool", "start"); ("EventLoopThreadPool", "getNextLoop"); ("EventLoopThreadPool", "getLoopForHash");
+    ("TcpConnection", "connectEstablished"); ("TcpConnection", "connectDestroyed") ].
+
+(* an any-thread operation is covered when the table gives it the contract `any` and the extractor produced a summary for
+   it: it is then a root of [all_eff], analysed in context XAny together with everything it calls or posts *)
+Definition anythread_op_covered (T : ptable) (S : list msummary) (cm : string * string) : bool :=
+  match contract_of T (fst cm) (snd cm), find_method S (fst cm) (snd cm) with
+  | Some CAny, Some _ => true
+  | _, _ => false
+  end.
+
+(* a confined operation fails fast when its contract is `loop failfast`, its summary says the first statement is the
+   thread check, and no waiver excuses it *)
+Definition confined_op_failfast (T : ptable) (S : list msummary) (wv : list violation) (cm : string * string) : bool :=
+  match contract_of T (fst cm) (snd cm), find_method S (fst cm) (snd cm) with
+  | Some (CLoop FFDirect), Some s =>
+      m_check_first s && negb (existsb (fun w => seqb (v_class w) (fst cm) && seqb (v_site w) (snd cm) &&
+                                                 seqb (v_kind w) "nofailfast") wv)
+  | _, _ => false
+  end.
 
 (* debug-only reads that precede the thread check of a fail-fast method (reported as an observation) *)
 Definition precheck_debug_reads (T : ptable) (S : list msummary) : list violation :=
